@@ -70,11 +70,12 @@ impl<T> Receiver<T> {
     }
 
     /// Attempts to return a pending value on this receiver without blocking.
+    #[track_caller]
     pub fn try_recv(&self) -> Result<T, std::sync::mpsc::TryRecvError> {
-        if self.object.is_empty() {
-            return Err(std::sync::mpsc::TryRecvError::Empty);
+        if self.object.try_recv(location!()) {
+            self.receiver.try_recv()
         } else {
-            self.recv().map_err(|e| e.into())
+            Err(std::sync::mpsc::TryRecvError::Empty)
         }
     }
 }
